@@ -792,10 +792,13 @@ def eval_streams(descs, drv, scratch_root, stage_compiled=True):
         # encode
         enc = []
         ok = True
+        in_cache = None       # extras of the cache the encoder currently works with (a reload costs ~50 ms)
         for k, m in enumerate(desc['msgs']):
             eb, ed = desc['epochs'][k]
             if m['kind'] == 'def':
-                reset_cache()
+                if in_cache != ({}, {}):
+                    reset_cache()
+                    in_cache = ({}, {})
                 js = C.make_message_json(DEF_IDS, [def_values(m)], False, edition=desc['edition'],
                                          overrides=sec_overrides(desc, 11))
             else:
@@ -803,7 +806,9 @@ def eval_streams(descs, drv, scratch_root, stage_compiled=True):
                     cnt('data-message-without-values:' + str(m.get('gen_err')))
                     enc.append(None)
                     continue
-                reset_cache(eb, ed)
+                if in_cache != (eb, ed):
+                    reset_cache(eb, ed)
+                    in_cache = (eb, ed)
                 js = C.make_message_json(m['ids'], P.py_inputs(m['vals']), m['comp'], edition=desc['edition'],
                                          overrides=sec_overrides(desc, 2))
             st, b, _ = C.impl_encode(js)
@@ -827,6 +832,20 @@ def eval_streams(descs, drv, scratch_root, stage_compiled=True):
             kind = desc['msgs'][idx[bad]]['kind'] if bad < len(idx) else '?'
             viol('stream decode stopped at message %d (%s message): %s' % (bad, kind, tag), 'stream', error=str(tag), kind=kind)
             obs = [o for o in obs if isinstance(o, dict)]
+        # the model runs the WHOLE stream itself (TableDef.specRun): file tables of the stream's table group, its own
+        # extraction from the definition messages, every message decoded with the definitions before it
+        if obs and len(obs) == len(idx):
+            reqs.append(tables_req(desc, {}, {}))
+            checks.append(None)
+            smsgs = []
+            for k in idx:
+                nsub, comp, ids = P.parse_section3(enc[k])
+                smsgs.append({'ids': ids, 'compressed': comp, 'n': nsub, 'bits': C.data_bits(enc[k]),
+                              'def': desc['msgs'][k]['kind'] == 'def'})
+            use_c = desc['index'] % 3 == 0
+            reqs.append({'op': 'tabledef-stream', 'msgs': smsgs, 'compiled': use_c})
+            checks.append((res, 'model-stream', (idx, obs)))
+            cnt('model-stream-runs' + (':compiled' if use_c else ''))
         last_ep = None
         epoch_dirs = {}
         for o, k in zip(obs, idx):
@@ -921,6 +940,23 @@ def eval_streams(descs, drv, scratch_root, stage_compiled=True):
             if why:
                 res['viol'].append(('message %d (%s): model vs implementation: %s' % (k, res['desc']['msgs'][k]['kind'], why),
                                     {'stage': 'model-decode', 'kind': res['desc']['msgs'][k]['kind']}))
+        elif kind == 'model-stream':
+            idx, obs = payload
+            outs = r['out']
+            for j, (k, o) in enumerate(zip(idx, obs)):
+                mk = res['desc']['msgs'][k]
+                if j >= len(outs):
+                    res['viol'].append(('message %d (%s): the model\'s run of the stream ended at message %d: %s' % (
+                        k, mk['kind'], idx[len(outs) - 1] if outs else -1, outs[-1] if outs else 'no output'),
+                        {'stage': 'model-stream', 'kind': 'short'}))
+                    break
+                why = P.compare_decode(('ok', o['subs'], 0), outs[j] if o['subs'] else dict(outs[j], rest=0))
+                if why:
+                    res['viol'].append((
+                        'message %d (%s%s): stream run by the model (definitions before it in force) vs implementation: %s' % (
+                            k, mk['kind'], ' ' + mk.get('mode', '') if mk['kind'] == 'def' else '', why),
+                        {'stage': 'model-stream', 'kind': mk['kind']}))
+                    break
         elif kind == 'tree':
             k, o = payload
             mt = r.get('tree', 'err:' + r.get('err', ''))
@@ -1182,8 +1218,8 @@ def run(ctx):
         if why:
             ctx.violation(why, {'variant': c}, signature={'stage': 'variant', 'kind': c['kind']})
     # (c) streams
-    count = 150 if ctx.tier == 'quick' else 3000
-    step = 10 if ctx.tier == 'quick' else 50
+    count = 240 if ctx.tier == 'quick' else 4000
+    step = 5 if ctx.tier == 'quick' else 50
     tasks = [(ctx.seed, lo, min(count, lo + step), True) for lo in range(0, count, step)]
     with multiprocessing.Pool(min(16, os.cpu_count() or 1)) as pool:
         chunks = pool.map(work_chunk, tasks, chunksize=1)
